@@ -52,9 +52,11 @@ from . import common
 
 CLASSES = ['A', 'B', 'C', 'D', 'E']
 FLAGS = [(cs, cd, rd) for cs in (False, True) for cd in (True, False) for rd in (True, False)]
+# 'O' is `object` itself, the root of every MRO: only queried (singledispatch keeps the base printer under it, which is
+# not a registration: is_registered(object) is False under every flag combination that does not raise)
 ALL_OPS = ([[k, c] for c in CLASSES for k in ('reg', 'name', 'pred', 'print')] +
-           [['isreg', c, cs, cd, rd] for c in CLASSES for (cs, cd, rd) in FLAGS])
-ALL_OPS.sort(key=lambda op: (CLASSES.index(op[1]), op[0], op[2:]))
+           [['isreg', c, cs, cd, rd] for c in CLASSES + ['O'] for (cs, cd, rd) in FLAGS])
+ALL_OPS.sort(key=lambda op: ((CLASSES + ['O']).index(op[1]), op[0], op[2:]))
 
 RULE = ("non-trivial: a checked print / is_registered whose class has a direct, pending or promoted entry "
         "somewhere in its MRO or an accepting predicate; key = operation+flags, class, per-MRO-class entry "
@@ -110,7 +112,7 @@ def _lattice():
     C = mk('C', (A,))
     D = mk('D', (B, C))
     E = mk('E', (object,))
-    return {'A': A, 'B': B, 'C': C, 'D': D, 'E': E}
+    return {'A': A, 'B': B, 'C': C, 'D': D, 'E': E, 'O': object}
 
 
 def _printer(tag):
@@ -171,10 +173,12 @@ def run_real(ops):
                 raise ValueError(op)
     finally:
         for c in L.values():
-            R.registry.pop(c, None)
+            if c is not object:
+                R.registry.pop(c, None)
         R.clear_cache()
-        for k in keys.values():
-            P._DEFERRED_DISPATCH_BY_NAME.pop(k, None)
+        for n_, k in keys.items():
+            if n_ != 'O':
+                P._DEFERRED_DISPATCH_BY_NAME.pop(k, None)
         P._DEFERRED_DISPATCH_BY_NAME.update(deferred_before)
         if my_preds:
             P._PREDICATE_REGISTRY[:] = [pf for pf in P._PREDICATE_REGISTRY
@@ -184,7 +188,7 @@ def run_real(ops):
 
 # ---------------------------------------------------------------------------------------------
 # the reference model
-MRO = {'A': ['A'], 'B': ['B', 'A'], 'C': ['C', 'A'], 'D': ['D', 'B', 'C', 'A'], 'E': ['E']}
+MRO = {'A': ['A'], 'B': ['B', 'A'], 'C': ['C', 'A'], 'D': ['D', 'B', 'C', 'A'], 'E': ['E'], 'O': ['O']}
 
 
 def mixed_kind(ops):
